@@ -74,3 +74,9 @@ Theorem check_stress_sound : forall aborted free_scans,
 Proof.
   intros a b; destruct a, b; cbn; split; intros H; try discriminate; try (destruct H; discriminate); auto.
 Qed.
+
+Theorem check_race_sound : forall v crashed served,
+  check (mkRace v crashed served) = [] <-> crashed = false /\ served = true.
+Proof.
+  intros v a b; destruct a, b; cbn; split; intros H; try discriminate; try (destruct H; discriminate); auto.
+Qed.
